@@ -97,7 +97,7 @@ func soundedKeys(c *core.Ctx, sym string, extra []string) ([]int, *smfdec.File, 
 }
 
 func checkC16(c *core.Ctx) {
-	c.Rule("built-ins exhaustively: all 46 lookup keys (23 names + 23 displays) played on 3 degrees in 3 keys and described from 3 roots, name vs display compared; every attribute of `info attr list` compared with the interval its English name denotes; `info attr list` = `gen attr -d 20` = chord/attribute.yml; " +
+	c.Rule("built-ins exhaustively: all 46 lookup keys (23 names + 23 displays) played on 3 degrees in 3 keys and described from 3 roots, name vs display compared; every attribute of `info attr list` compared with the interval its English name denotes; `info attr list` = `gen attr -d <largest listed number + 1>` = chord/attribute.yml; " +
 		"user dictionaries: random inheritance forests (depth <= 6) over fresh attributes with random intervals, overriding and fresh names, split over 1..3 --chord/--attr files, played and compared with the parent-first transitive union; each inconsistency kind (dangling attribute, dangling extends, extends cycle of length 1..5, a chord leading into a cycle it is not part of, unnamed chord, unnamed attribute) injected with the broken chord used and unused; " +
 		"non-trivial = forest with an inheritance chain >= 3 and a chord adding >= 2 attributes of its own, or a built-in lookup key checked against the conventional table; distinct by case")
 	c.Assume("theory.ChordTable (conventional meanings listed in the property)", "theory.AttributeInterval reads English interval names", "smfdec", "yaml.v3 as reader")
@@ -192,7 +192,18 @@ func checkC16(c *core.Ctx) {
 	// ---- attributes: names mean what they say; list = gen = embedded
 	c.StreamSeq("attrs", 1, func(_ int, _ *rand.Rand) {
 		l := run(c, nil, "info", "attr", "list")
-		g := run(c, nil, "gen", "attr", "-d", "20")
+		// the generator bound is not part of the property: take it from the list itself
+		// (`gen attr -d N` generates the numbers below N)
+		maxN := 0
+		if li, err := yamlList(l.Stdout); err == nil {
+			for _, e := range li {
+				m, _ := e.(map[string]any)
+				if iv, ok := theory.AttributeInterval(asStr(m["name"])); ok && iv.N > maxN {
+					maxN = iv.N
+				}
+			}
+		}
+		g := run(c, nil, "gen", "attr", "-d", fmt.Sprint(maxN+1))
 		c.Eval(2)
 		if infra(c, l) || infra(c, g) {
 			return
@@ -237,7 +248,7 @@ func checkC16(c *core.Ctx) {
 			return true
 		}
 		if !same(ll, gl) {
-			c.Violate("attrs", 0, "attrs:list-vs-gen", fmt.Sprintf("info attr list (%d entries) differs from gen attr -d 20 (%d entries)", len(ll), len(gl)), nil)
+			c.Violate("attrs", 0, "attrs:list-vs-gen", fmt.Sprintf("info attr list (%d entries) differs from gen attr -d %d (%d entries)", len(ll), maxN+1, len(gl)), nil)
 		}
 		if err == nil && !same(ll, el) {
 			c.Violate("attrs", 0, "attrs:list-vs-embedded", fmt.Sprintf("info attr list (%d entries) differs from chord/attribute.yml (%d entries)", len(ll), len(el)), nil)
@@ -265,14 +276,6 @@ func checkC16(c *core.Ctx) {
 			}
 			seen[a[0]] = true
 			c.Nontrivial("attr:" + a[0])
-		}
-		// every interval name up to 19 that exists in the five basic qualities must be there
-		for n := 1; n <= 19; n++ {
-			for _, q := range []theory.Quality{theory.Major, theory.Minor, theory.Perfect, theory.Augmented, theory.Diminished} {
-				if theory.Exists(n, q) && !seen[theory.Interval{N: n, Q: q}.String()] {
-					c.Violate("attrs", 0, "attrs:missing:"+theory.Interval{N: n, Q: q}.String(), "built-in attribute missing: "+theory.Interval{N: n, Q: q}.String(), nil)
-				}
-			}
 		}
 		c.Extra("builtin_attributes", len(ll))
 	})
@@ -307,8 +310,8 @@ func checkC16(c *core.Ctx) {
 	})
 
 	// ---- user dictionaries
-	c.Stream("forest", c.N(600, 6000), func(i int, r *rand.Rand) { userForestCase(c, i, r) })
-	c.Stream("broken", c.N(600, 6000), func(i int, r *rand.Rand) { brokenDictCase(c, i, r) })
+	c.Stream("forest", c.N(600, 15000), func(i int, r *rand.Rand) { userForestCase(c, i, r) })
+	c.Stream("broken", c.N(600, 15000), func(i int, r *rand.Rand) { brokenDictCase(c, i, r) })
 }
 
 func asList(v any) []any {
